@@ -53,6 +53,12 @@ func h05Schemas() [][]string {
 			`module ia { namespace "urn:ia"; prefix ia; import ib { prefix ib; } import missing-d { prefix d; } }`,
 			`module ib { namespace "urn:ib"; prefix ib; import missing-c { prefix c; } }`,
 			`module zz { namespace "urn:zz"; prefix zz; }`},
+		// independently created errors with identical text (two importers of one missing module, the
+		// same bad augment retried in every pass) and errors on lines 9, 10 and 11 (numeric order)
+		{`module i1 { namespace "urn:i1"; prefix i1; import missing { prefix a; } }`,
+			`module i2 { namespace "urn:i2"; prefix i2; import missing { prefix b; } }`,
+			`module i3 { namespace "urn:i3"; prefix i3; container c; augment /zz:c { leaf x { type string; } } augment /i3:c/i3:nosuch { leaf y { type string; } } }`,
+			"module i4 { namespace \"urn:i4\"; prefix i4;\n\n\n\n\n\n\n\n leaf l9 { type no9; }\n leaf l10 { type no10; }\n   leaf l11 { type no11; } leaf l11b { type no11b; } }"},
 		// two revisions of one module and importers, deviations with several deviate kinds
 		{`module lib { namespace "urn:lib"; prefix lib; revision 2019-01-01; typedef t { type int8; } leaf v { type t; default 1; } }`,
 			`module lib { namespace "urn:lib"; prefix lib; revision 2020-01-01; typedef t { type int16; } leaf v { type t; default 2; } leaf-list ll { type string; max-elements 4; } }`,
@@ -89,10 +95,97 @@ func H05() {
 			}
 		}
 		for i := 1; i < len(lines); i++ {
-			check(lines[i] != lines[i-1], "error lists come back with duplicates removed")
-			if len(lines[i]) > 2 && len(lines[i-1]) > 2 && lines[i][0] == 'f' && lines[i-1][0] == 'f' {
-				check(lines[i-1][1] <= lines[i][1], "error lists come back ordered by file")
+			for j := 0; j < i; j++ {
+				check(lines[i] != lines[j], "error lists come back with duplicates removed")
+			}
+			fa, la, ca, oka := h05Pos(lines[i-1])
+			fb, lb, cb, okb := h05Pos(lines[i])
+			if oka && okb {
+				check(fa < fb || (fa == fb && (la < lb || (la == lb && ca <= cb))), "error lists come back ordered by file, line and column")
 			}
 		}
+	}
+}
+
+// h05Pos reads a leading file:line:col (numbers in decimal).
+func h05Pos(s string) (file string, line, col int, ok bool) {
+	i := 0
+	for i < len(s) && s[i] != ':' {
+		i++
+	}
+	file = s[:i]
+	num := func() (int, bool) {
+		i++
+		n, any := 0, false
+		for i < len(s) && s[i] >= '0' && s[i] <= '9' {
+			n = n*10 + int(s[i]-'0')
+			i++
+			any = true
+		}
+		return n, any && i < len(s) && s[i] == ':'
+	}
+	var ok1, ok2 bool
+	line, ok1 = num()
+	if !ok1 {
+		return file, 0, 0, false
+	}
+	col, ok2 = num()
+	return file, line, col, ok2
+}
+
+// H05sort: the error sorter itself on k messages "F.yang:L:C: M" with a symbolic file letter,
+// symbolic one- or two-digit line and column numbers and a symbolic message letter (so equal
+// texts arise): the result is strictly ascending by (file, line as a number, column as a number,
+// message), holds every distinct message once and nothing else.
+func H05sort() {
+	k := param("k")
+	var errs []error
+	var texts []string
+	num := func() string {
+		d1 := symByte()
+		assume(d1 >= '1')
+		assume(d1 <= '9')
+		if symBool() {
+			d2 := symByte()
+			assume(d2 >= '0')
+			assume(d2 <= '9')
+			return string([]byte{d1, d2})
+		}
+		return string([]byte{d1})
+	}
+	for i := 0; i < k; i++ {
+		f := symByte()
+		assume(f >= 'a')
+		assume(f <= 'b')
+		m := symByte()
+		assume(m >= 'x')
+		assume(m <= 'y')
+		t := string([]byte{f}) + ".yang:" + num() + ":" + num() + ": " + string([]byte{m})
+		texts = append(texts, t)
+		errs = append(errs, errorString(t))
+	}
+	out := errorSort(errs)
+	reach("sorted")
+	check(len(out) >= 1 && len(out) <= k, "no more messages than were given")
+	var got []string
+	for _, e := range out {
+		got = append(got, e.Error())
+	}
+	for i := 1; i < len(got); i++ {
+		fa, la, ca, oka := h05Pos(got[i-1])
+		fb, lb, cb, okb := h05Pos(got[i])
+		check(oka && okb, "harness: positions readable")
+		ma, mb := got[i-1][len(got[i-1])-1], got[i][len(got[i])-1]
+		check(fa < fb || (fa == fb && (la < lb || (la == lb && (ca < cb || (ca == cb && ma < mb))))),
+			"error lists come back ordered by file, line and column (numerically), duplicates removed")
+	}
+	for _, t := range texts {
+		n := 0
+		for _, g := range got {
+			if g == t {
+				n++
+			}
+		}
+		check(n == 1, "every distinct message is reported exactly once")
 	}
 }
